@@ -13,7 +13,8 @@ def main(tier):
         explanation=(
             "Decides structural necessary conditions: the templates that render `case` labels for TryToGetNameFromEnum "
             "and EnumIsKnown are instantiated only under `value not in seen` with the seen-set updated on the same path "
-            "— the first-declared-name rule and the absence of duplicate case labels (R-CASEDEDUP); every advertised "
+            "— the first-declared-name rule and the absence of duplicate case labels (R-CASEDEDUP); names are matched by a whole-string comparison against the declared literal "
+            "(R-EXACTNAME); every advertised "
             "enum_case spelling has a conversion registered from SHOUTY_CASE (R-ENUMCASE); enumerator values reach the "
             "header only through _render_integer, which handles the 64-bit edge values (R-RENDERINT); EnumView "
             "instantiates for every underlying type and width (R-WIDTHS); enum values are required to be numeric "
@@ -23,6 +24,7 @@ def main(tier):
     r = cx.repo
     chk.run("R-CASEDEDUP", B.casededup, r, floor=3)
     chk.run("R-ENUMCASE", B.enumcase, r, floor=2)
+    chk.run("R-EXACTNAME", B.exactname, r, floor=2)
     chk.run("R-RENDERINT", B.renderint, r, floor=100)
     chk.run("R-WIDTHS", lambda: cx.widths, floor=3000)
     chk.run("R-POSCHECK", V.poscheck, r, cx.schema, cx.sites, floor=9)
